@@ -55,7 +55,8 @@ Proof.
         split; [intros key Hne; apply dget_dset_other; exact Hne|].
         split; [intros key Hne; apply dget_dset_other; exact Hne|].
         split; [intros key Hne; apply dget_dset_other; exact Hne|]. intros ref' Hne. apply dget_dset_other. exact Hne.
-    + cbn [with_store c_store c_seg c_stat c_cur]. split; [intros key Hne; apply dget_dset_other; exact Hne|]. repeat split; reflexivity.
+    + cbn [with_store with_seg c_store c_seg c_stat c_cur]. split; [intros key Hne; apply dget_dset_other; exact Hne|].
+      split; [intros key Hne; apply dget_ddel_other; exact Hne|]. split; reflexivity.
   - cbn [with_store c_store c_seg c_stat c_cur]. split; [intros key Hne; apply dget_dset_other; exact Hne|]. repeat split; reflexivity.
 Qed.
 
